@@ -47,7 +47,7 @@ class C01(Check):
     reference_models = ["the property statement itself (two exit statuses and the problem log of the second run)"]
 
     def budget(self, tier):
-        return {"runs": 2500, "wall_s": 100} if tier == "quick" else {"runs": 60000, "wall_s": 1500}
+        return {"runs": 2500, "wall_s": 100} if tier == "quick" else {"runs": 30000, "wall_s": 1500}
 
     def generate(self, rng, tier):
         kind = rng.weighted([("faults", 12), ("crashed_writer", 5), ("journal+faults", 2), ("orphan", 1), ("journal", 1)])
